@@ -49,7 +49,7 @@ m = {
         'name': 'gosym',
         'path': 'engine/',
         'serves_properties': [c['property_id'] for c in checks],
-        'kind_free_text': 'bounded symbolic executor for Go written for this task: go/ssa (x/tools v0.29.0) of /repo\'s current tree -> SMT-LIB2 terms (bit-vectors, IEEE floats), path exploration with a persistent z3/cvc5 process per shard, 16 shard processes, native replay of every model via go test -overlay',
+        'kind_free_text': 'bounded symbolic executor for Go written for this task: go/ssa (x/tools v0.29.0) of /repo\'s current tree -> SMT-LIB2 terms (bit-vectors, IEEE floats), path exploration with a persistent z3/cvc5 process per worker, 16 in-process workers sharing the SSA program and the term table, native replay of every model via go test -overlay',
     }],
     'checks': checks,
     'not_applicable': na,
